@@ -16,4 +16,4 @@ one() {
 }
 export -f one
 # the C01 check uses all cores by itself (28 item shapes): its seeds run one after the other, the rest side by side
-(ls -d seeded/C01-*/ | xargs -P 1 -I{} bash -c 'one {}'; ls -d seeded/*/ | grep -v "seeded/C01-" | xargs -P $J -I{} bash -c 'one {}') | sort
+(ls -d seeded/C01-*/ | xargs -P 1 -I{} bash -c 'one {}'; ls -d seeded/C*/ | grep -v "seeded/C01-" | xargs -P $J -I{} bash -c 'one {}') | sort
